@@ -492,6 +492,14 @@ impl RoomAuthorisations {
             }
         }
 
+        //the source row of a removed reference is re-dated and re-signed: when that row is somebody else's
+        //the all-rows right is needed, as validate_node requires of the re-signed row on every peer
+        let foreign_sources: HashSet<Uid> = deletion_query
+            .updated_nodes
+            .iter()
+            .filter(|node| !node.verifying_key.eq(&verifying_key))
+            .map(|node| node.id)
+            .collect();
         for node in &mut deletion_query.updated_nodes {
             node.sign(&self.signing_key)?;
         }
@@ -506,7 +514,9 @@ impl RoomAuthorisations {
                     if let Some(room_id) = &edge.room_id {
                         match self.rooms.get(room_id) {
                             Some(room) => {
-                                let can = if edge.edge.verifying_key.eq(&verifying_key) {
+                                let can = if edge.edge.verifying_key.eq(&verifying_key)
+                                    && !foreign_sources.contains(&edge.edge.src)
+                                {
                                     room.can(
                                         &verifying_key,
                                         &edge.src_name,
